@@ -536,6 +536,112 @@ def search_frames(ctx, fd, rebound):
             fd.fail("iadd:mass", {"A": a0, "B": b0, "result": s1}, "+= changed a mass")
 
 
+def search_whole_sim_var(ctx, fd, rebound):
+    """whole-simulation rotation of simulations WITH variational particles (first order, second order, MEGNO): reb_simulation_irotate is a
+    linear map, so it must act on every variational particle exactly as on a real one; rotate + counter-rotate is the identity; rotating
+    commutes with integrating (real and variational particles, MEGNO)."""
+    rng = ctx.rng
+    R = rebound.Rotation
+    C6 = ["x", "y", "z", "vx", "vy", "vz"]
+
+    def snap(sim):
+        return [[getattr(sim.particles[i], c) for c in C6] for i in range(sim.N)]
+
+    def build(kind, integ, seed):
+        r2 = __import__("random").Random(seed)
+        sim = rebound.Simulation()
+        sim.integrator = integ
+        sim.dt = 0.01
+        sim.add(m=1.0, vx=r2.gauss(0, 0.01), vy=r2.gauss(0, 0.01))
+        npl = r2.randint(1, 3)
+        for i in range(npl):
+            sim.add(m=10 ** r2.uniform(-6, -3), a=1.0 + 0.7 * i + r2.uniform(0, 0.2), e=r2.uniform(0, 0.2), inc=r2.uniform(0, 0.5),
+                    Omega=r2.uniform(0, 6), omega=r2.uniform(0, 6), f=r2.uniform(0, 6))
+        sets = []
+        if kind == "megno":
+            sim.init_megno(seed=r2.randint(1, 10 ** 6))
+            sets.append("megno")
+        else:
+            nset = r2.randint(1, 3)
+            firsts = []
+            for _ in range(nset):
+                if kind == "second" and firsts and r2.random() < 0.6:
+                    a = r2.choice(firsts); b = r2.choice(firsts)
+                    sim.add_variation(order=2, first_order=a, first_order_2=b); sets.append("2nd")
+                else:
+                    firsts.append(sim.add_variation(order=1)); sets.append("1st")
+            n = sim.N - sim.N_var
+            for i in range(n, sim.N):
+                p = sim.particles[i]
+                for c in C6:
+                    setattr(p, c, r2.gauss(0, 1))
+                p.m = 0.0 if r2.random() < 0.5 else r2.gauss(0, 1e-4)
+        return sim, sets
+
+    for k in range(ctx.scale(45, 600)):
+        ctx.evaluations += 1
+        kind = ["first", "second", "megno"][k % 3]
+        integ = "ias15" if kind == "second" else rng.choice(["ias15", "whfast", "leapfrog"])
+        seed = rng.randrange(10 ** 9)
+        a = gvec(rng); b = [-x for x in a] if rng.random() < 0.15 else gvec(rng)
+        q = R.from_to(a, b) if rng.random() < 0.6 else R(angle=rng.uniform(-6, 6), axis=gvec(rng))
+        qv = [q.ix, q.iy, q.iz, q.r]
+        sim, sets = build(kind, integ, seed)
+        n_real = sim.N - sim.N_var
+        rep = {"how": "star + planets built from random.Random(seed) as in tools/c20_search.py build()", "seed": seed, "kind": kind, "integrator": integ,
+               "variation_sets": sets, "N": sim.N, "N_var": sim.N_var, "q": qv}
+        before = snap(sim)
+        sim.rotate(q)
+        after = snap(sim)
+        bad = None
+        for i in range(sim.N):
+            for o in (0, 3):
+                ex = xrot(qv, before[i][o:o + 3])
+                got = after[i][o:o + 3]
+                if max(abs(F(g) - e) for g, e in zip(got, ex)) > 64 * EPS * max(nrm(before[i][o:o + 3]), 1e-300):
+                    bad = bad or {"particle": i, "variational": i >= n_real, "what": "pos" if o == 0 else "vel", "before": before[i][o:o + 3],
+                                  "after": got, "expected": [float(x) for x in ex]}
+        if bad:
+            fd.fail("simulation:rotate-variational" if bad["variational"] else "simulation:rotate-real", dict(rep, first_wrong=bad),
+                    "sim.rotate(q) does not rotate %s particle %d like a vector (a linear map acts on variations as on coordinates)"
+                    % ("variational" if bad["variational"] else "real", bad["particle"]))
+            continue
+        # R * sim (copy) gives the same particles as sim.rotate
+        sim0, _ = build(kind, integ, seed)
+        cp = q * sim0
+        if any(abs(x - y) > 0 for pa, pb in zip(snap(cp), after) for x, y in zip(pa, pb)):
+            fd.fail("simulation:rotate-copy", rep, "Rotation * sim differs from sim.rotate(Rotation)")
+        # rotate and counter-rotate
+        sim.rotate(q.inverse())
+        back = snap(sim)
+        if any(abs(x - y) > 256 * EPS * max(nrm(pb[0:3]) if j < 3 else nrm(pb[3:6]), 1e-300)
+               for pa, pb in zip(back, before) for j, (x, y) in enumerate(zip(pa, pb))):
+            fd.fail("simulation:rotate-inverse", rep, "rotating a simulation and then counter-rotating it is not the identity (all particles)")
+        # integrate(R*sim) == R*integrate(sim), real and variational particles (and MEGNO)
+        if k % 3 != 2 or True:
+            T = 2.0
+            s1, _ = build(kind, integ, seed); s1.integrate(T); s1.rotate(q)
+            s2, _ = build(kind, integ, seed); s2.rotate(q); s2.integrate(T)
+            p1, p2 = snap(s1), snap(s2)
+            worst = None
+            for i in range(s1.N):
+                for o in (0, 3):
+                    sc = max(nrm(p1[i][o:o + 3]), 1e-300)
+                    d = max(abs(x - y) for x, y in zip(p1[i][o:o + 3], p2[i][o:o + 3])) / sc
+                    if d > 1e-7 and (worst is None or d > worst[0]):
+                        worst = (d, i, i >= n_real)
+            mg = None
+            if kind == "megno":
+                m1, m2 = s1.megno(), s2.megno()
+                if abs(m1 - m2) > 1e-6 * max(1.0, abs(m1)):
+                    mg = (m1, m2)
+            if worst or mg:
+                fd.fail("simulation:rotate-integrate" + ("-variational" if (worst and worst[2]) or mg else ""),
+                        dict(rep, T=T, worst_relative_difference=worst, megno=mg),
+                        "integrating a rotated simulation differs from rotating the integrated simulation (%s)"
+                        % ("variational particles / MEGNO" if (worst and worst[2]) or mg else "real particles"))
+
+
 def search_slerp(ctx, fd, clib, Rot):
     """reb_rotation_slerp (C API only): end points, unit norm and constant angular speed along the great arc between unit quaternions"""
     rng = ctx.rng
@@ -565,6 +671,7 @@ def search(ctx, rebound, clib, Rot, V3):
     import traceback
     fd = Finder(ctx)
     for name, fn in (("units", search_units), ("rotations", search_rot), ("frames", search_frames),
+                     ("whole-simulation rotation with variations", search_whole_sim_var),
                      ("slerp", lambda c, f, r: search_slerp(c, f, clib, Rot))):
         try:
             fn(ctx, fd, rebound)
